@@ -20,7 +20,7 @@ CASE_TIMEOUT = 120
 PID = 'C01'
 
 FOCUS = ['parallel_edges', 'fanin_two_vars_same_node', 'op_two_inputs_one_multi_driven', 'user_name_like_generated',
-         'edge_same_name_src_tgt', 'edge_endpoint_named_like_edge_local']
+         'edge_same_name_src_tgt', 'name_like_edge_local', 'derived_label_name_with_multi_driven_input']
 
 
 def plan(tier, seed):
@@ -45,10 +45,13 @@ def warmup(ctx):
 
 
 def make_spec(case, opened):
+    if case.get('spec') is not None:
+        f, r = gen.features(case['spec'])
+        return case['spec'], f, r
     rnd = random.Random(case['cseed'])
     want = case.get('want')
     if want:
-        pool = gen.VAR_POOL if want in ('user_name_like_generated', 'edge_endpoint_named_like_edge_local') else gen.SAFE_POOL
+        pool = gen.VAR_POOL if want in ('user_name_like_generated', 'name_like_edge_local', 'derived_label_name_with_multi_driven_input') else gen.SAFE_POOL
         others = set(opened) - {want}
         return gen.gen_net(rnd, pool=pool, allow=lambda s, f, r: want in r, forbid=others,
                            edge_density=rnd.choice([0.3, 0.6, 1.0]), n_nodes=rnd.choice([2, 3, 4, 5]))
